@@ -84,20 +84,20 @@ func (i *interpreter) goStmt(fr *frame, instr *ssa.Go, fn value, args []value) {
 // vxReach(root any, ifaceName string) []any: all values of a type implementing the
 // named interface of root's package that are reachable from root through fields.
 func vxReach(fr *frame, a []value) value {
-	i := fr.i
+	_ = fr.i
 	root := a[0].(iface)
 	var out []value
 	seen := map[*value]bool{}
 	var nodeIface *types.Interface
-	name := i.concString(a[1])
-	for _, p := range i.prog.AllPackages() {
-		if m, ok := p.Members[name].(*ssa.Type); ok && strings.HasSuffix(p.Pkg.Path(), "/ast") {
-			nodeIface, _ = m.Type().Underlying().(*types.Interface)
+	if sel, ok := a[1].(iface); ok && sel.t != nil {
+		if pt, ok := sel.t.Underlying().(*types.Pointer); ok {
+			nodeIface, _ = pt.Elem().Underlying().(*types.Interface)
 		}
 	}
 	if nodeIface == nil {
-		panic(pathAbort{"unsupported", "Reach: interface " + name + " not found"})
+		panic(pathAbort{"unsupported", "Reach: second argument must be a (*Interface)(nil)"})
 	}
+	pointersOnly := true
 	var walk func(t types.Type, v value)
 	walk = func(t types.Type, v value) {
 		if t == nil {
@@ -128,7 +128,7 @@ func vxReach(fr *frame, a []value) value {
 			walk(u.Elem(), *p)
 		case *types.Struct:
 			s := v.(structure)
-			if _, isPtr := t.(*types.Pointer); !isPtr && types.Implements(t, nodeIface) {
+			if _, isPtr := t.(*types.Pointer); !isPtr && !pointersOnly && types.Implements(t, nodeIface) {
 				out = append(out, iface{t: t, v: copyVal(s)})
 			}
 			for k := 0; k < u.NumFields(); k++ {
@@ -239,7 +239,31 @@ func vxFill(fr *frame, a []value) value {
 // scalars symbolic, strings one symbolic byte, pointers to filled values (one level),
 // slices of one filled element, interfaces the sentinel (when it implements them), maps empty non-nil.
 // vxFillOne: the same content for exactly ONE top-level field (symbolic choice), others untouched.
+// cloneProto returns a fresh copy of a prototype node (*T) so every placement is a distinct object.
+func cloneProto(p iface) iface {
+	ptr, ok := p.v.(*value)
+	if !ok || ptr == nil {
+		return p
+	}
+	cell := copyVal(*ptr)
+	return iface{t: p.t, v: &cell}
+}
+
 func (i *interpreter) fillFull(t types.Type, d int, sentinel iface) value {
+	if len(i.fillProtos) > 0 {
+		if it, ok := t.Underlying().(*types.Interface); ok {
+			if it.NumMethods() == 0 {
+				return i.zero(t) // `any` fields hold data, not nodes
+			}
+			for _, p := range i.fillProtos {
+				if p.t != nil && types.Implements(p.t, it) {
+					i.fillPlaced++
+					return cloneProto(p)
+				}
+			}
+			return i.zero(t)
+		}
+	}
 	switch u := t.Underlying().(type) {
 	case *types.Basic:
 		switch {
@@ -266,6 +290,12 @@ func (i *interpreter) fillFull(t types.Type, d int, sentinel iface) value {
 	case *types.Slice:
 		if d <= 0 {
 			return i.zero(t)
+		}
+		if len(i.fillProtos) > 0 {
+			if _, isPtr := u.Elem().Underlying().(*types.Pointer); isPtr && d-1 <= 0 {
+				return i.zero(t) // no nil elements in slices of pointers
+			}
+			return []value{i.fillFull(u.Elem(), d-1, sentinel), i.fillFull(u.Elem(), d-1, sentinel)}
 		}
 		return []value{i.fillFull(u.Elem(), d-1, sentinel)}
 	case *types.Array:
@@ -309,8 +339,24 @@ func vxFillOne(fr *frame, a []value) value {
 	i.assume(lower(types.Bool, i.ts.Cmp(OpUlt, v, i.ts.Const(16, uint64(st.NumFields())))))
 	k := int(i.concretize(sym{types.Uint16, v}))
 	fields := (*p).(structure)
-	i.store(st.Field(k).Type(), &fields[k], i.fillFull(st.Field(k).Type(), 2, sentinel))
+	d := 2
+	if len(i.fillProtos) > 0 {
+		d = 3
+	}
+	i.store(st.Field(k).Type(), &fields[k], i.fillFull(st.Field(k).Type(), d, sentinel))
 	return k
+}
+
+// vxFillOneOf(p any, protos ...any) int: like FillOne, but interface fields receive a fresh
+// clone of the first prototype implementing them and slices get two elements.
+func vxFillOneOf(fr *frame, a []value) value {
+	i := fr.i
+	i.fillProtos = nil
+	for _, p := range a[1].([]value) {
+		i.fillProtos = append(i.fillProtos, p.(iface))
+	}
+	defer func() { i.fillProtos = nil }()
+	return vxFillOne(fr, []value{a[0], iface{}})
 }
 
 // vxDump(v any) string: canonical rendering of a value under the current model
